@@ -113,7 +113,7 @@ theorem euLoop_closed {phi1 : CSet} :
       have := (euStep_card hE hG hs).2
       exact ih r (by omega)
 
-theorem sem_eu {U0 U a b : CSet} {d : Nat} {φ ψ : Point → Prop} (hU : UnitOK E U0 U d)
+theorem sem_eu {U0 st U a b : CSet} {d : Nat} {φ ψ : Point → Prop} (hU : UnitOK E U0 st U d)
     (ha : Sem E a U φ) (hb : Sem E b U ψ) :
     Sem E (Ops.evalEuSat E a b) U
       (fun p => EUi (E.G.R p.c) (fun t => φ (p.setS t)) (fun t => ψ (p.setS t)) p.s) := by
